@@ -1,6 +1,7 @@
 (* Properties/C09.v — dry run touches nothing and predicts the real run. *)
 From Coq Require Import List Ascii String.
-From GT Require Import Base.GoStr Tree.Tree Tree.Grower Out.Spreader Api.Simple Fs.FsModel Fs.Mkdir Proofs.FsBasic.
+From GT Require Import Base.GoStr Tree.Tree Tree.Grower Out.Spreader Api.Simple Fs.FsModel Fs.Mkdir
+  Proofs.Paths Proofs.Programmable Proofs.FsBasic Proofs.MkdirExact.
 Import ListNotations.
 
 (* with the dry-run option the file system is exactly as before, for every forest, target,
@@ -12,11 +13,28 @@ Print Assumptions C09_no_effect.
 (* the report is, per root in order, that root's plain tree text, an empty line and
    "<d> directories, <f> files" *)
 Theorem C09_report : forall c dir f ts gs,
-  c_dry c = true -> grow_all c true ts = Ok gs ->
+  c_dry c = true -> grow_all (no_enc c) true ts = Ok gs ->
   mkdir_trees c dir f ts = (f, [CText (List.concat (map (dry_block (c_exts c)) gs))], Ok tt) /\
   forall g, dry_block (c_exts c) g = text_of g ++ [c_lf] ++ summary (c_exts c) g ++ [c_lf].
 Proof. exact dry_run_report. Qed.
 Print Assumptions C09_report.
+
+(* the counts printed per root are what the real mkdir creates for that root: among the
+   entries the real run adds beneath the root there are exactly count_dirs directories and
+   count_files empty files (per_root_counts, Proofs/MkdirExact.v) *)
+Theorem C09_counts : forall bf exts tc ts f,
+  eok tc -> acc tc ->
+  Forall (fun t => Forall name_ok (tnames t)) ts -> all_nodup ts -> NoDup (map tname ts) ->
+  fs_ok f ->
+  (forall t, In t ts -> stat f (tjoin (pth tc) (tname t)) = StNone) ->
+  forall g, In g (map (grow_root bf) ts) ->
+    per_root_counts exts (pth tc) (fst (mkdirer exts (dir_of tc) f (map (grow_root bf) ts))) g.
+Proof.
+  intros bf exts tc ts f H1 H2 H3 H4 H5 H6 H7 g Hg.
+  destruct (mkdir_exact bf exts tc ts f H1 H2 H3 H4 H5 H6 H7) as [Hm [_ [_ [_ [_ [Hc _]]]]]].
+  rewrite Hm. apply Hc. exact Hg.
+Qed.
+Print Assumptions C09_counts.
 
 (* dry run rejects a forest iff the real run rejects it because of a name (same error);
    otherwise the dry run returns nil *)
